@@ -972,6 +972,206 @@ example : line (['l', '1'] ++ ':' :: ([] ++ (['s', 'e', 'i'] ++ ([] ++ ['/', '/'
   labelled_bare_instruction_line _ _ _ _ _ ⟨'l', ['1'], rfl, by decide, by decide⟩ (by unfold blanks; decide) ⟨'s', ['e', 'i'], rfl, by decide, by decide⟩ (by unfold blanks; decide)
     (Or.inr ⟨Or.inr rfl, rfl⟩)
 
+/-! ### whole lines: instructions whose operands are registers -/
+
+/-- the text of a register operand: `r`/`R` and the one or two digits of a number below 32 -/
+def regText (up : Bool) (k : Nat) : Str :=
+  (if up then 'R' else 'r') :: (if k < 10 then [Char.ofNat (48 + k)] else [Char.ofNat (48 + k / 10), Char.ofNat (48 + k % 10)])
+
+/-- what may follow a register operand: nothing, a blank, a comma, or a comment -/
+def afterReg (rest : Str) : Prop := ∀ y, rest.head? = some y → isDigit y = false
+
+theorem reg8_reads (up : Bool) (k : Nat) (hk : k < 32) (rest : Str) (hr : afterReg rest) :
+    reg8 (regText up k ++ rest) = some (k, rest) := by
+  have hd : ∀ y ys, rest = y :: ys → isDigit y = false := fun y ys h => hr y (by rw [h]; rfl)
+  cases rest with
+  | nil => revert up; revert k; decide
+  | cons y ys =>
+    have hy := hd y ys rfl
+    have key : ∀ (up : Bool) (k : Nat), k < 32 → ∀ (y : Char) (ys : Str), isDigit y = false →
+        reg8 (regText up k ++ y :: ys) = some (k, y :: ys) := by
+      intro up k hk y ys hy
+      have : k = 0 ∨ k = 1 ∨ k = 2 ∨ k = 3 ∨ k = 4 ∨ k = 5 ∨ k = 6 ∨ k = 7 ∨ k = 8 ∨ k = 9 ∨ k = 10 ∨ k = 11 ∨ k = 12 ∨ k = 13 ∨ k = 14 ∨ k = 15 ∨
+          k = 16 ∨ k = 17 ∨ k = 18 ∨ k = 19 ∨ k = 20 ∨ k = 21 ∨ k = 22 ∨ k = 23 ∨ k = 24 ∨ k = 25 ∨ k = 26 ∨ k = 27 ∨ k = 28 ∨ k = 29 ∨ k = 30 ∨ k = 31 := by omega
+      cases up <;> rcases this with rfl | rfl | rfl | rfl | rfl | rfl | rfl | rfl | rfl | rfl | rfl | rfl | rfl | rfl | rfl | rfl | rfl | rfl | rfl | rfl | rfl | rfl | rfl | rfl | rfl | rfl | rfl | rfl | rfl | rfl | rfl | rfl <;>
+        simp +decide [regText, reg8, regOfDigits, hy]
+    exact key up k hk y ys hy
+
+theorem regText_head (up : Bool) (k : Nat) (rest : Str) : ∃ t, regText up k ++ rest = (if up then 'R' else 'r') :: t := ⟨_, rfl⟩
+
+theorem instructionOps_reg (up : Bool) (k : Nat) (hk : k < 32) (rest : Str) (hr : afterReg rest) :
+    instructionOps (regText up k ++ rest) = .ok (.r8 k) rest := by
+  have h8 := reg8_reads up k hk rest hr
+  obtain ⟨t, ht⟩ := regText_head up k rest
+  have hi : indexOps (regText up k ++ rest) = .fail := by
+    rw [ht]
+    cases up <;> simp [indexOps, reg16]
+  unfold instructionOps
+  simp only [hi, h8]
+
+/-- the operands after the first: blanks, a comma, blanks, a register — any number of times -/
+def tailText : List (Str × Str × Bool × Nat) → Str
+  | [] => []
+  | (a, b, up, k) :: more => a ++ ',' :: (b ++ (regText up k ++ tailText more))
+
+def tailOk (more : List (Str × Str × Bool × Nat)) : Prop :=
+  ∀ x ∈ more, blanks x.1 ∧ blanks x.2.1 ∧ x.2.2.2 < 32
+
+theorem tail_after (more : List (Str × Str × Bool × Nat)) (hm : tailOk more) (ws2 c : Str) (hws2 : blanks ws2) (hc : lineEnd c) :
+    afterReg (tailText more ++ (ws2 ++ c)) := by
+  intro y hy
+  cases more with
+  | nil =>
+    simp only [tailText, List.nil_append] at hy
+    have := (tail_head ws2 c hws2 hc y hy).1
+    cases hd : isDigit y with
+    | false => rfl
+    | true => simp [isIdentChar, hd] at this
+  | cons x xs =>
+    obtain ⟨a, b, up, k⟩ := x
+    have ha : blanks a := (hm _ (List.mem_cons_self ..)).1
+    simp only [tailText, List.append_assoc] at hy
+    cases a with
+    | nil => simp at hy; subst hy; decide
+    | cons w ws =>
+      simp at hy; subst hy
+      have hw : isSpace w = true := ha w (by simp)
+      simp only [isSpace, Bool.or_eq_true, beq_iff_eq] at hw
+      rcases hw with rfl | rfl <;> decide
+
+theorem tail_len (more : List (Str × Str × Bool × Nat)) : more.length ≤ (tailText more).length := by
+  induction more with
+  | nil => simp
+  | cons x xs ih =>
+    obtain ⟨a, b, up, k⟩ := x
+    simp only [tailText, List.length_cons, List.length_append]
+    omega
+
+theorem skip_reg (up : Bool) (k : Nat) (rest : Str) : skipSpace (regText up k ++ rest) = regText up k ++ rest := by
+  obtain ⟨t, ht⟩ := regText_head up k rest
+  rw [ht]
+  cases up <;> simp +decide [skipSpace]
+
+theorem delimiter_end (ws2 c : Str) (hws2 : blanks ws2) (hc : lineEnd c) : delimiter (ws2 ++ c) = none := by
+  unfold delimiter
+  rw [skip_tail ws2 c hws2 hc]
+  rcases hc with rfl | ⟨hs, _⟩
+  · rfl
+  · cases c with
+    | nil => rfl
+    | cons x xs =>
+      have : x ≠ ',' := by
+        rcases hs with h | h <;> (simp at h; subst h; decide)
+      split
+      · rename_i r heq; simp only [List.cons.injEq] at heq; exact absurd heq.1 this
+      · rfl
+
+theorem sepTail_regs : ∀ (more : List (Str × Str × Bool × Nat)), tailOk more → ∀ (ws2 c : Str), blanks ws2 → lineEnd c →
+    ∀ (f : Nat) (acc : List IOp), more.length < f →
+      sepTail instructionOps f acc (tailText more ++ (ws2 ++ c)) =
+        .ok (acc.reverse ++ more.map (fun x => IOp.r8 x.2.2.2)) (ws2 ++ c) := by
+  intro more
+  induction more with
+  | nil =>
+    intro _ ws2 c hws2 hc f acc hf
+    obtain ⟨g, rfl⟩ : ∃ g, f = g + 1 := ⟨f - 1, by omega⟩
+    simp only [tailText, List.nil_append, sepTail, delimiter_end ws2 c hws2 hc, List.map_nil, List.append_nil]
+  | cons x xs ih =>
+    intro hm ws2 c hws2 hc f acc hf
+    obtain ⟨a, b, up, k⟩ := x
+    obtain ⟨g, rfl⟩ : ∃ g, f = g + 1 := ⟨f - 1, by omega⟩
+    have hx := hm _ (List.mem_cons_self ..)
+    have hxs : tailOk xs := fun y hy => hm y (List.mem_cons_of_mem _ hy)
+    have hdel : delimiter (tailText ((a, b, up, k) :: xs) ++ (ws2 ++ c)) = some (regText up k ++ (tailText xs ++ (ws2 ++ c))) := by
+      unfold delimiter
+      simp only [tailText, List.append_assoc, List.cons_append]
+      rw [space_absorbs a _ hx.1]
+      simp only [skipSpace]
+      have : isSpace ',' = false := by decide
+      simp only [this, Bool.false_eq_true, if_false]
+      rw [space_absorbs b _ hx.2.1, skip_reg]
+    have hop := instructionOps_reg up k hx.2.2 (tailText xs ++ (ws2 ++ c)) (tail_after xs hxs ws2 c hws2 hc)
+    simp only [sepTail, hdel, hop]
+    rw [ih hxs ws2 c hws2 hc g (IOp.r8 k :: acc) (by simp only [List.length_cons] at hf; omega)]
+    simp
+
+/-- the operand list of a register instruction, with its blanks -/
+def regsText (up : Bool) (k : Nat) (more : List (Str × Str × Bool × Nat)) : Str := regText up k ++ tailText more
+
+theorem opList_regs (up : Bool) (k : Nat) (hk : k < 32) (more : List (Str × Str × Bool × Nat)) (hm : tailOk more)
+    (ws2 c : Str) (hws2 : blanks ws2) (hc : lineEnd c) :
+    opList (regText up k ++ (tailText more ++ (ws2 ++ c))) =
+      .ok (IOp.r8 k :: more.map (fun x => IOp.r8 x.2.2.2)) (ws2 ++ c) := by
+  have hop := instructionOps_reg up k hk (tailText more ++ (ws2 ++ c)) (tail_after more hm ws2 c hws2 hc)
+  unfold opList sepList
+  simp only [hop]
+  rw [sepTail_regs more hm ws2 c hws2 hc _ [IOp.r8 k] (by
+    have := tail_len more
+    simp only [List.length_append]
+    omega)]
+  simp
+
+/-- **An instruction whose operands are registers** — any mnemonic or macro name, indented or not,
+    `r`/`R`, any blanks before and after every comma, any blanks and any comment (or nothing) at
+    the end — is that operation with exactly those registers -/
+theorem register_instruction_line (ws1 n wsA : Str) (up : Bool) (k : Nat) (more : List (Str × Str × Bool × Nat)) (ws2 c : Str)
+    (hws1 : blanks ws1) (hn : isName n) (hwsA : blanks wsA) (hA : wsA ≠ []) (hk : k < 32) (hm : tailOk more)
+    (hws2 : blanks ws2) (hc : lineEnd c) :
+    line (ws1 ++ (n ++ (wsA ++ (regText up k ++ (tailText more ++ (ws2 ++ c)))))) =
+      .ok (.codeLine none (opOfWord (lower n)) (IOp.r8 k :: more.map (fun x => IOp.r8 x.2.2.2))) := by
+  -- what follows the name starts with a blank
+  obtain ⟨w, ws, rfl⟩ : ∃ w ws, wsA = w :: ws := by
+    cases wsA with
+    | nil => exact absurd rfl hA
+    | cons w ws => exact ⟨w, ws, rfl⟩
+  have hw : isSpace w = true := hwsA w (by simp)
+  have hwi : isIdentChar w = false ∧ w ≠ ':' := by
+    simp only [isSpace, Bool.or_eq_true, beq_iff_eq] at hw
+    rcases hw with rfl | rfl <;> decide
+  have hol := opList_regs up k hk more hm ws2 c hws2 hc
+  have hsr := skip_reg up k (tailText more ++ (ws2 ++ c))
+  generalize hR : regText up k ++ (tailText more ++ (ws2 ++ c)) = R at hol hsr ⊢
+  have hth : ∀ y, ((w :: ws) ++ R).head? = some y → isIdentChar y = false := by
+    intro y hy; simp at hy; subst hy; exact hwi.1
+  have hid : identText (n ++ ((w :: ws) ++ R)) = some (n, (w :: ws) ++ R) := identText_name n _ hn hth
+  have hlab : label (ws1 ++ (n ++ ((w :: ws) ++ R))) = none := by
+    cases ws1 with
+    | nil =>
+      simp only [List.nil_append, label, hid]
+      split
+      · rename_i heq; simp only [Option.some.injEq, Prod.mk.injEq, List.cons_append, List.cons.injEq] at heq; exact absurd heq.2.1 hwi.2
+      · rfl
+    | cons v vs =>
+      have hv : isSpace v = true := hws1 v (by simp)
+      have : isIdentStart v = false := by
+        simp only [isSpace, Bool.or_eq_true, beq_iff_eq] at hv
+        rcases hv with rfl | rfl <;> decide
+      simp [label, identText, this]
+  have hsk : skipSpace (ws1 ++ (n ++ ((w :: ws) ++ R))) = n ++ ((w :: ws) ++ R) := by
+    rw [space_absorbs ws1 _ hws1, skip_name n _ hn]
+  have hop := operation_name n ((w :: ws) ++ R) hn hth
+  have hsA : skipSpace ((w :: ws) ++ R) = R := by
+    rw [space_absorbs (w :: ws) _ hwsA]; exact hsr
+  have hst := skip_tail ws2 c hws2 hc
+  unfold line
+  simp only [optLabel, hlab]
+  simp only [hsk]
+  rw [directive_name n _ hn]
+  simp only [hop]
+  simp only [hsA]
+  simp only [hol]
+  simp only [hst]
+  rcases hc with rfl | ⟨_, hcom⟩
+  · simp [comment]
+  · simp only [hcom]; simp
+
+/-! non-vacuity: ` MOV r1 , R31 ; copy` -/
+example : line ([' '] ++ (['M', 'O', 'V'] ++ ([' '] ++ (regText false 1 ++ (tailText [([' '], [' '], true, 31)] ++ ([' '] ++ [';', 'c'])))))) =
+    .ok (.codeLine none (opOfWord (lower ['M', 'O', 'V'])) [IOp.r8 1, IOp.r8 31]) :=
+  register_instruction_line _ _ _ _ _ _ _ _ (by unfold blanks; decide) ⟨'M', ['O', 'V'], rfl, by decide, by decide⟩
+    (by unfold blanks; decide) (by decide) (by decide) (by unfold tailOk blanks; decide) (by unfold blanks; decide) (Or.inr ⟨Or.inl rfl, rfl⟩)
+example : regText false 1 ++ tailText [([' '], [' '], true, 31)] = "r1 , R31".toList := by decide
+
 /-! non-vacuity: 26 in the five spellings, followed by a comma -/
 example : eConst "26,".toList = some (26, [',']) ∧ eConst "0x1A,".toList = some (26, [',']) ∧
     eConst "$1a,".toList = some (26, [',']) ∧ eConst "0b11010,".toList = some (26, [',']) ∧
